@@ -1183,7 +1183,7 @@ def _decide_guard(self, fn, ob, scope):
             if len(l[1]) == 1 and l[1][0][1] == 1 and l[0] == 0:
                 a = l[1][0][0]
                 lo, hi = P.interval(a, self.facts(fn, ob.block))
-                if hi >= ln[1] and self.raw_elem_of_param(fn, a) and hi < INF:
+                if hi >= ln[1] and (self.raw_elem_of_param(fn, a) or self._rooted_in_param(a)) and hi < INF:
                     ob.verdict = VIOLATION
                     ob.why = "table of %d entries indexed by raw input byte (range 0..%d) with no bound check" % (ln[1], hi)
                     return ob
